@@ -151,7 +151,10 @@ def _one_mode(u, fn, assume, exact, sign, R):
     rels = []
     for s in loops:
         p, q = (s.start_root[c1], 0), (s.start_root[c2], 0)
-        rels.append((s, bp.pair_relation(ex, s, p, q), p, q))
+        retf = None
+        if s.end[0] == 'return' and not (s.end[1] is not None and s.end[1][0] == 'k') and s.end_node is not None and s.end_node.expr is not None:
+            retf = bp.pair_value(ex, s.st, s.end_node.expr, p, q)
+        rels.append((s, bp.pair_relation(ex, s, p, q), p, q, retf))
     folds = {'lower': bp._tolower, 'upper': bp._toupper} if not exact else {'identity': lambda v: v}
     alive = dict(folds)
     first_bad = {}
@@ -159,7 +162,7 @@ def _one_mode(u, fn, assume, exact, sign, R):
     for x in range(256):
         for y in range(256):
             outcomes = []
-            for (s, rel, p, q) in rels:
+            for (s, rel, p, q, retf) in rels:
                 f = rel(x, y)
                 if f is None:
                     raise AnalysisBroken('CMP1: %s (%s): a condition on the path ending at line %d cannot be evaluated for bytes %d, %d'
@@ -173,7 +176,7 @@ def _one_mode(u, fn, assume, exact, sign, R):
                     if v is not None and v[0] == 'k':
                         val = v[1]
                     else:
-                        val = ex.ev(s.end_node.expr, s.st, {p: x, q: y}) if s.end_node is not None and s.end_node.expr is not None else None
+                        val = retf(x, y) if retf is not None else None
                     if val is None:
                         raise AnalysisBroken('CMP1: %s (%s): the result at line %d cannot be evaluated for bytes %d, %d'
                                              % (fn.name, mode, s.line, x, y))
